@@ -158,7 +158,7 @@ pub fn main_for(prop: &'static str) {
     if prop == "C04" {
         ctx.rule("programs: leaves = instrumented probe (length 0..3), from_iter, from_interleaved_samples_iter, equilibrium, gen, gen_mut; unary = map, scale_amp(0.5), scale_amp(-1), scale_amp(0), scale_amp(1), offset_amp, scale_amp_per_channel, offset_amp_per_channel, clip_amp, inspect, delay(0|1|2); scale probes: sources of 7, 9, 70 and 300 frames under every depth-1 program and delays of 31, 255, 256, 257 and 1000 frames below and above every unary adaptor and beside every binary one, delays of 65535, 65536, 65537 frames run to the end in six program shapes, and delay(k) for k in {2^16, 2^16+1, 2^31+1, 2^32, 2^32+3, 2^48+2, 2^63, MAX-1, MAX} observed for its first 40 frames (silence, no pull, not exhausted); binary = add_amp, mul_amp (right operand in the Signed / Float companion family), zip_map; all trees of depth <=2, all unary stacks to depth 3 (quick) / 4 (thorough); families f32, [i16;2], [u8;3], [f64;2], [i32;2], [i64;1] and the bare sample i32 used as a mono frame (the last three with values and clip thresholds that do not fit the Float companion's mantissa); each program run for longest source + total delay + 3 calls: frame n == interpreter (for the integer families the amplitude operations are re-derived with independent arithmetic: add in the Signed companion, multiply in the Float companion with correctly rounded conversions; float families apply the native float addition / multiplication, also beyond full scale (a gain-4 letter in the scale probes); clip_amp also with threshold 0 (everything limited to equilibrium); map / zip_map apply the harness's own closures; clip = clamp of the signed amplitude, delay = k equilibrium frames), every probe pulled exactly once per call and not at all while a delay above it is emitting silence, inspect saw exactly the frames that passed, and for every j <= horizon the program built over a borrowed probe, run j steps and dropped leaves the probe at frame j - delays; non-trivial = a program with at least one adaptor, distinct by (family, program)");
     } else {
-        ctx.rule("same program space as C04; per program: is_exhausted() before and after every next() == (calls >= T) with T from the exhaustion algebra (leaf: number of complete frames; unary: forwarded; delay(k): T+k; binary: min), 3 further calls return the interpreter's frames, until_exhausted() and lift() yield exactly T frames then None three times, into_interleaved_samples (iterator, next_sample, and k samples through next_sample followed by the iterator for every k up to 2 x channels + 1) yields exactly T x channels samples in channel order then None, take(n) for n in 0..=T+2 yields exactly n frames with exact len/size_hint; interleaved sources of every sample count 0..=3N+1; scale probes: delay(k) for k from 2^16 to usize::MAX stays live and silent without touching its source for the first 40 calls, over an empty and a 3-frame source; [i32; N] frames for the listed wide channel counts (byte and 16-bit boundaries included), 0..=3 frames plus 0 / 1 / N-1 trailing samples: from_interleaved_samples_iter, until_exhausted, into_interleaved_samples (both forms), take, add_amp of unequal lengths; non-trivial = a program with at least one adaptor, distinct by (family, program)");
+        ctx.rule("same program space as C04; per program: is_exhausted() before and after every next() == (calls >= T) with T from the exhaustion algebra (leaf: number of complete frames; unary: forwarded; delay(k): T+k; binary: min), 3 further calls return the interpreter's frames, until_exhausted() and lift() yield exactly T frames then None three times, into_interleaved_samples (iterator, next_sample, and k samples through next_sample followed by the iterator for every k up to 2 x channels + 1) yields exactly T x channels samples in channel order then None, take(n) for n in 0..=T+2 yields exactly n frames with exact len/size_hint; for the programs with at most one adaptor the whole Iterator protocol (nth, skip, step_by, count, last, size_hint after every cursor position) of until_exhausted, take and the interleaved-sample iterator agrees with next(); interleaved sources of every sample count 0..=3N+1; scale probes: delay(k) for k from 2^16 to usize::MAX stays live and silent without touching its source for the first 40 calls, over an empty and a 3-frame source; [i32; N] frames for the listed wide channel counts (byte and 16-bit boundaries included), 0..=3 frames plus 0 / 1 / N-1 trailing samples: from_interleaved_samples_iter, until_exhausted, into_interleaved_samples (both forms), take, add_amp of unequal lengths; non-trivial = a program with at least one adaptor, distinct by (family, program)");
     }
     ctx.sample(json!({"family":"[u8;3]","program":"add(delay1(probe3),scale_neg(iter2))"}));
     ctx.sample(json!({"family":"f32","program":"clip(zip(probe1,delay2(genmut)))"}));
